@@ -29,7 +29,9 @@ IDS = [("ID", "alpha", "a.zo", "240101#00"), ("RID", "knuth", "a.zo", "240101#01
 ZIDS = [(z, p) for (_, _, p, z) in IDS]
 TARGETS = ["[[foo]]", "[[foo#sec]]", "[[sub/b]]", "[[missing]]", "[[bar.sh]]", "[^loc1]", "[^X]", "[#alpha]", "[#dup]", "[#same]",
            "[#nope]", "[#rel_notes]", "[@knuth]", "[@dupr]", "[@knuth_65]", "[@none]", "[240101#02]", "240102#01", "[240199#zz]",
-           "240102#03", "240101#000", "[240102#0A5]", "[#late]"]
+           "240102#03", "240101#000", "[240102#0A5]", "[#late]",
+           # page names that ARE a binary extension, and pages with two dots
+           "[[pdf]]", "[[epub#sec]]", "[[png]]", "[[notes.pdf]]", "[[v1.2]]"]
 PLAIN = ["word", "and", "see", "x", "o", "P1", "240601", "-", "note:", "(aside)", "k::v", "#tag", "@ctx", "2024-01-01", "1200"]
 PREFIXES = ["- ", "o ", "o P1 ", "x P3 240601 ", "- 240601 ", "~ ", "< P0 ", "  * ", "", "# "]
 
